@@ -5,6 +5,10 @@ mod codec;
 mod http;
 mod replay;
 mod sched;
+mod track;
+
+#[global_allocator]
+static GLOBAL: track::Track = track::Track;
 
 struct NoLog;
 impl log::Log for NoLog {
